@@ -2,6 +2,7 @@ SPECIFICATION MCSpec
 CONSTANTS
   Proc = {"s1", "s2"}
   CloneSeq <- Clones0
+  MaxCancels = 0
   Defect_CheckThenClone = FALSE
   Defect_UnlockedJoin = FALSE
   Defect_SplitDrop = TRUE
